@@ -642,6 +642,9 @@ func runCase(rec *recorder, in *input, expectAccept bool, g int, rng *rand.Rand,
 	add("decoded", dec, e1)
 	if expectAccept && e1 == nil {
 		st.refs = refClasses(&in.B)
+		for k := range v1RefClasses(&in.B) {
+			st.refs[k] = true
+		}
 	}
 	add("shared", mkShared(in), nil)
 	add("copied", mkCopied(in), nil)
